@@ -1,15 +1,15 @@
-(** Two cases recorded from the real code by harness/cmd/c08 (seed 7, cases 2149 and 687; both are replayed
-    from harness/cmd/c08/corpus.jsonl at the start of every check).  The tables [c_keccak] / [c_mpt] / [c_json]
-    hold the values the REAL crypto.Keccak256, trie.VerifyProof and encoding/json returned for these arguments;
-    both Go copies (eth, bsc) accepted both cases ([c_eth_class = c_bsc_class = 0]).  Generated once with
-    tools/py/props/c08.py [case_term]; used as concrete witnesses in Props/C08.v (non-vacuity) and
-    Refuted/C08_refuted.v.  The proof bytes are represented by "sha256:" ++ digest (the model only hands
-    them to the [json_proof] oracle). *)
+(** Two cases recorded from the real code by harness/cmd/c08 (both are replayed from
+    harness/cmd/c08/corpus.jsonl, cases 900001 and 900002, at the start of every check).  The tables [c_keccak] /
+    [c_mpt] / [c_json] hold the values the REAL crypto.Keccak256, trie.VerifyProof and encoding/json returned for
+    these arguments; [c_eth_class] / [c_bsc_class] are the outcome classes of the two Go copies at /repo HEAD
+    after fix commit 0ebe7e9.  Generated with tools/py/props/c08.py [case_term]; used as concrete witnesses in
+    Props/C08.v (non-vacuity) and Refuted/C08_refuted.v.  The proof bytes are represented by "sha256:" ++ digest
+    (the model only hands them to the [json_proof] oracle). *)
 From Teleport Require Import Base.Bytes Base.Outcome Model.EvmProof Model.EvmProofCheck.
 Local Open Scope N_scope.
 
 (** honest proof, head 0-80641, proof height 0-80605, ETH delay 14, BSC 27 validators (delay 14),
-    value with 14 leading zero bytes *)
+    value with 14 leading zero bytes: accepted by both copies *)
 Definition witness_honest : ecase :=
 {| c_ack := false; c_head := {| rn := 0%N; rh := 80641%N |}; c_eth_delay := 14%N; c_bsc_vals := 27%N; c_contract :=
   [x2e;x1d;x4d;x26;xb2;xc4;x88;x79;xf7;x13;x1e;x87;x33;x79;x6a;xbb;x59;xf8;x79;xb5]; c_store :=
@@ -68,7 +68,8 @@ Definition witness_honest : ecase :=
   |}.
 
 (** the same kind of honest proof, but: head 1-96135, proof height 0-96141 (revision number 0 < 1, revision
-    height ABOVE the head), ETH delay 8, BSC 14 validators (delay 8) *)
+    height ABOVE the head), ETH delay 8, BSC 14 validators (delay 8): accepted by both copies before fix
+    0ebe7e9, rejected by both since *)
 Definition witness_above_head : ecase :=
 {| c_ack := true; c_head := {| rn := 1%N; rh := 96135%N |}; c_eth_delay := 8%N; c_bsc_vals := 14%N; c_contract :=
   [xc3;xdc;xb0;xb2;xfb;x86;x69;xb3;x91;xca;x93;xd1;xed;xab;x7f;xc2;x51;x42;xb5;x53]; c_store :=
@@ -110,7 +111,7 @@ Definition witness_above_head : ecase :=
   [x01;x1c;xcd;xc3;xaa;x2f;xf4;x02;x08;x34;x0f;x7e;x8a;x09;xe0;x93;x88;x0c;x90;xaf;x3e;xae;x4f;x92;xbc;x79;x37;x7c;x84;x77;x21;x9c],
   [[xf8;x71;xa0;xe9;xba;x59;xdb;x3b;x44;x6c;xb3;x8e;xad;xef;x3b;x96;x3b;x24;x55;x84;x05;x9b;xb0;x2b;xe3;x2e;xfc;x80;x47;xcc;x8a;x54;x3b;xb1;x45;x80;x80;x80;x80;x80;x80;xa0;x36;xac;x0a;x66;xfa;x03;x2d;x5a;x3b;xae;xf1;xbc;xbb;xe4;xc8;x59;x41;x5c;xf4;x16;x29;x17;xb6;x7e;x5b;x98;x57;xe1;x1e;xdb;x83;xe8;x80;x80;x80;xa0;x8e;xe0;xb8;xed;x46;x4c;x3f;x55;xe3;x5a;xac;x07;x30;x57;x31;x5b;xdb;xbc;x50;xe8;xa9;x1f;xe6;xa7;x94;x0c;xae;x89;xa9;x7d;xb8;xc3;x80;x80;x80;x80;x80];
   [xed;xa0;x31;x1c;xcd;xc3;xaa;x2f;xf4;x02;x08;x34;x0f;x7e;x8a;x09;xe0;x93;x88;x0c;x90;xaf;x3e;xae;x4f;x92;xbc;x79;x37;x7c;x84;x77;x21;x9c;x8b;x8a;x70;xf9;x08;x09;xcb;x52;xa7;xf8;x4d;x14]],
-  (Some [x8a;x70;xf9;x08;x09;xcb;x52;xa7;xf8;x4d;x14]))]; c_copies_agree := true; c_eth_class := 0; c_bsc_class := 0;
+  (Some [x8a;x70;xf9;x08;x09;xcb;x52;xa7;xf8;x4d;x14]))]; c_copies_agree := true; c_eth_class := 1; c_bsc_class := 1;
   c_honest := true; c_gt_word := (Some
   [x00;x00;x00;x00;x00;x00;x00;x00;x00;x00;x00;x00;x00;x00;x00;x00;x00;x00;x00;x00;x00;x00;x70;xf9;x08;x09;xcb;x52;xa7;xf8;x4d;x14])
   |}.
